@@ -25,7 +25,6 @@ type SubscriptionService struct {
 // get rid of all references to a subscription and all monitored items that are pointed at this subscription.
 func (s *SubscriptionService) DeleteSubscription(id uint32) {
 	s.Mu.Lock()
-	defer s.Mu.Unlock()
 
 	sub, ok := s.Subs[id]
 	if ok {
@@ -38,8 +37,11 @@ func (s *SubscriptionService) DeleteSubscription(id uint32) {
 	}
 
 	delete(s.Subs, id)
+	s.Mu.Unlock()
 
-	// ask the monitored item service to purge out any items that use this subscription
+	// ask the monitored item service to purge out any items that use this subscription.
+	// This must happen without our lock: CreateMonitoredItems takes the lock of the
+	// monitored item service first and ours second.
 	s.srv.MonitoredItemService.DeleteSub(id)
 
 }
